@@ -8,6 +8,7 @@ fn run_cmd(cmd: &str, args: &Args) -> String {
         "doc" => tree::cmd_doc(args),
         "val" => tree::cmd_val(args),
         "docf" => tree::cmd_docf(args),
+        "fuzz" => verif_harness::fuzz::cmd_fuzz(args),
         "depth" => verif_harness::depth::cmd_depth(args),
         "rt" => tree::cmd_rt(args),
         "docv" => tree::cmd_docv(args),
